@@ -209,6 +209,9 @@ func TestVerifStartArgs(t *testing.T) {
 			// the parser above fills pixels; telemetry is set through a wrapper frame status
 			f := mp.frameLoop.Current()
 			f.Status = cptvframe.Telemetry{TimeOn: timeOn, LastFFCTime: timeOn - time.Duration(st.FfcAge)*time.Millisecond}
+			if st.NeverFFC {
+				f.Status = cptvframe.Telemetry{TimeOn: time.Duration(st.FfcAge) * time.Millisecond}
+			}
 			lis.motion = false
 			mp.Process(nil)
 			// the detector as the processor drives it (same event shape as TestVerifDetector)
